@@ -192,51 +192,57 @@ Inductive tree := TA (t : str) | TS (items : list (str * tree)).
 Definition dot : ascii := ".".
 Fixpoint joindot (l : list str) : str := match l with [] => [] | [x] => x | x :: t => x ++ dot :: joindot t end.
 
-Fixpoint view_value (fuel : nat) (s : st) (v : value) : tree :=
+(* nested attrpath roots are flattened into dotted names; [lv] renders the value of a leaf binding *)
+Fixpoint expand (s : st) (lv : nat -> tree) (g : nat) (bid : nat) (prefix : list str) : option (list (str * tree)) :=
+  match g with
+  | O => None
+  | S g' =>
+    match val_of s bid with
+    | VSet cv _ _ =>
+        fold_left (fun acc iid =>
+          match acc with
+          | None => None
+          | Some out =>
+              if nested_of s iid then
+                (if is_vset (val_of s iid) then
+                   match expand s lv g' iid (prefix ++ [name_of s iid]) with
+                   | Some more => Some (out ++ more) | None => None end
+                 else None)
+              else Some (out ++ [(joindot (prefix ++ [name_of s iid]), lv iid)])
+          end) cv (Some [])
+    | VAt _ => None
+    end
+  end.
+
+(* [ar owner text]: how the atom owned by binding [owner] is shown (identity for the real view; an override is
+   used to state locality of edits).  [o] is the binding that owns [v] (None for the root set). *)
+Fixpoint view_value_g (ar : nat -> str -> str) (fuel : nat) (s : st) (o : option nat) (v : value) : tree :=
   match fuel with
   | O => TA []
   | S f =>
     match v with
-    | VAt t => TA t
+    | VAt t => TA (match o with Some i => ar i t | None => t end)
     | VSet vals order _ =>
         match vals with
         | [] => TS []                      (* AttributeSet.rebuild tests `values` first *)
         | _ =>
           let rv := match order with [] => map OPlain vals | _ => order end in
-          let expand := fix expand (g : nat) (bid : nat) (prefix : list str) : option (list (str * tree)) :=
-            match g with
-            | O => None
-            | S g' =>
-              match val_of s bid with
-              | VSet cv _ _ =>
-                  fold_left (fun acc iid =>
-                    match acc with
-                    | None => None
-                    | Some out =>
-                        if nested_of s iid then
-                          (if is_vset (val_of s iid) then
-                             match expand g' iid (prefix ++ [name_of s iid]) with
-                             | Some more => Some (out ++ more) | None => None end
-                           else None)
-                        else Some (out ++ [(joindot (prefix ++ [name_of s iid]), view_value f s (val_of s iid))])
-                    end) cv (Some [])
-              | VAt _ => None
-              end
-            end in
+          let lv := fun i => view_value_g ar f s (Some i) (val_of s i) in
           TS (flat_map (fun e =>
                 match e with
-                | OPath sg leaf => [(joindot sg, view_value f s (val_of s leaf))]
+                | OPath sg leaf => [(joindot sg, lv leaf)]
                 | OPlain bid =>
                     if nested_of s bid then
-                      match expand f bid [name_of s bid] with
+                      match expand s lv f bid [name_of s bid] with
                       | Some l => l
-                      | None => [(name_of s bid, view_value f s (val_of s bid))]
+                      | None => [(name_of s bid, lv bid)]
                       end
-                    else [(name_of s bid, view_value f s (val_of s bid))]
+                    else [(name_of s bid, lv bid)]
                 end) rv)
         end
     end
   end.
+Definition view_value (fuel : nat) (s : st) (v : value) : tree := view_value_g (fun _ t => t) fuel s None v.
 Definition view (s : st) : tree := view_value 1000 s (VSet (rvals s) (rorder s) (rml s)).
 
 (* ---------- operations (cli/manipulations.py, set.py) ---------- *)
